@@ -1,6 +1,7 @@
 /- driver ops for property C01 (model side of the correspondence) -/
 import Rsa.Core.Wire
 import Rsa.Core.Calc
+import Rsa.Core.C01Top
 
 open Lean Rsa.Wire Rsa Rsa.Calc
 
@@ -111,7 +112,137 @@ def calcMovieOp (o : Ops α) (j : Json) : R Json := do
     pure (obj [("frames", ofList (fun f => obj [("time", ofRat f.1),
       ("labels", ofList ofLbl f.2.labels), ("vec", ofList o.out f.2.vec)]) fr)])
 
+/-! ### round 3: the call layer (`Rsa.Core.C01Top`) — input forms, dispatch, descriptors -/
+
+variable [IntCast α]
+
+def methodCodeOf (name : String) : Nat :=
+  match name with
+  | "euclidean" => 0
+  | "correlation" => 1
+  | "mahalanobis" => 2
+  | "poisson" => 3
+  | _ => 9
+
+/-- `noise`: null | {"one": matrix} | {"per": [matrix | null, …]} -/
+def noiseArgOf (o : Ops α) (j : Json) : R (NoiseArg α) :=
+  if j.isNull then pure .none
+  else match j.getObjVal? "one" with
+    | .ok m => do pure (.one (← matOfJson o m))
+    | .error _ => do
+      let per ← fld j "per" >>= asArr
+      let ms ← per.mapM (fun m => if m.isNull then pure none else some <$> matOfJson o m)
+      pure (.per ms)
+
+/-- a dataset descriptor value: a JSON array is a vector, anything else a scalar -/
+def dvalOf (j : Json) : DVal Json :=
+  match j with
+  | .arr a => .vec a.toList
+  | v => .scalar v
+
+def ddescOf (j : Json) : R (List (String × DVal Json)) :=
+  asList (fun pr => do
+    match ← asArr pr with
+    | [n, v] => pure ((← asStr n), dvalOf v)
+    | _ => throw "descriptor must be [name, value]") j
+
+/-- measurements in their stored form: `dtype` "int" (JSON integers) or "float" (mode numbers) -/
+def rawDataOf (o : Ops α) (d : Json) : R (RawData α) := do
+  let dt ← asStr (fldD d "dtype" (Json.str "float"))
+  if dt == "int" then do pure (.ints (← fld d "X" >>= asList (asList asInt)))
+  else do pure (.floats (← fld d "X" >>= asList (asList o.num)))
+
+/-- a descriptor column [name, "list" | "array", values] -/
+def rawDescOf (j : Json) : R (String × RawDesc Lbl) := do
+  match ← asArr j with
+  | [n, t, v] =>
+    let vals ← asList asLbl v
+    let ty ← asStr t
+    pure ((← asStr n), if ty == "list" then RawDesc.list vals else RawDesc.array vals)
+  | _ => throw "obs descriptor must be [name, container, values]"
+
+def dsetOf (o : Ops α) (d : Json) : R (DSet α Lbl Lbl Json) := do
+  let raw ← rawDataOf o d
+  let lab ← fld d "labels" >>= asList asLbl
+  let od ← asList rawDescOf (fldD d "descs" (Json.arr #[]))
+  let dd ← ddescOf (fldD d "ddesc" (Json.arr #[]))
+  pure { obs := lab.zip raw.rows, odesc := od.map (fun p => (p.1, p.2.parse)), ddesc := dd }
+
+def rvalJson : RVal Json Rat → Json
+  | .inl (.scalar s) => obj [("s", s)]
+  | .inl (.vec l) => obj [("v", Json.arr l.toArray)]
+  | .inr t => obj [("t", ofRat t)]
+
+def stackJson {D : Type} (o : Ops α) (dj : D → Json) (st : Option (Stack α Lbl D Json Rat)) : Json :=
+  match st with
+  | none => obj [("none", Json.bool true)]
+  | some s => obj [
+      ("labels", ofList ofLbl s.labels),
+      ("vecs", ofList (ofList (ofOpt o.out)) s.vecs),
+      ("rdesc", ofList (fun c => Json.arr #[Json.str c.1, ofList (ofOpt rvalJson) c.2]) s.rdesc),
+      ("pdesc", ofList (fun c => Json.arr #[Json.str c.1, ofOpt (ofList dj) c.2]) s.pdesc)]
+
+/-- `calc_rdm` in the form the user calls it: `wrap` "one" | "many" -/
+def topOp (o : Ops α) (j : Json) : R Json := do
+  let P ← fld j "P" >>= asNat
+  let name ← fld j "method" >>= asStr
+  let nz ← noiseArgOf o (fldD j "noise" Json.null)
+  let pl ← asOpt o.num (fldD j "pl" Json.null)
+  let pw ← asOpt o.num (fldD j "pw" Json.null)
+  let rm ← asBool (fldD j "remove_mean" (Json.bool false))
+  let lo : ListOpts α := { method := methodCodeOf name, noise := nz, pl := pl, pw := pw,
+                           removeMean := rm }
+  let ds ← fld j "datasets" >>= asArr
+  let dss ← ds.mapM (dsetOf o)
+  let wrap ← asStr (fldD j "wrap" (Json.str "one"))
+  let inp : R (Input (DSet α Lbl Lbl Json)) :=
+    if wrap == "many" then pure (.many dss)
+    else match dss with
+      | [d] => pure (.one d)
+      | _ => throw "wrap=one needs exactly one dataset"
+  pure (stackJson o ofLbl (calcTop (τ := Rat) P o.sqrt o.lg Lbl.le lo (← inp)))
+
+/-- `calc_rdm_movie` in the form the user calls it -/
+def movieTopOp (o : Ops α) (j : Json) : R Json := do
+  let P ← fld j "P" >>= asNat
+  let name ← fld j "method" >>= asStr
+  let nz ← noiseArgOf o (fldD j "noise" Json.null)
+  let pl ← asOpt o.num (fldD j "pl" Json.null)
+  let pw ← asOpt o.num (fldD j "pw" Json.null)
+  let tname ← asStr (fldD j "tname" (Json.str "time"))
+  let times ← fld j "times" >>= asList asRat
+  let bins ← asOpt (asList (asList asRat)) (fldD j "bins" Json.null)
+  let mo : MovieOpts α Rat := { method := methodCodeOf name, noise := nz, pl := pl, pw := pw,
+                                tname := tname, bins := bins }
+  let ds ← fld j "datasets" >>= asArr
+  let tss ← ds.mapM (fun d => do
+    let xs ← fld d "X" >>= asList (asList (asList o.num))
+    let trows : List (TRow α) := xs.map (fun chans =>
+      let arr := (chans.map (fun r => r.toArray)).toArray
+      fun c t => (arr.getD c #[]).getD t 0)
+    let lab ← fld d "labels" >>= asList asLbl
+    let dd ← ddescOf (fldD d "ddesc" (Json.arr #[]))
+    pure ({ obs := lab.zip trows, ddesc := dd, times := times } : TSet α Lbl Json Rat))
+  let wrap ← asStr (fldD j "wrap" (Json.str "one"))
+  let inp : R (Input (TSet α Lbl Json Rat)) :=
+    if wrap == "many" then pure (.many tss)
+    else match tss with
+      | [d] => pure (.one d)
+      | _ => throw "wrap=one needs exactly one dataset"
+  pure (stackJson o (fun (_ : Unit) => Json.null) (movieTop P o.sqrt o.lg Lbl.le mo (← inp)))
+
+/-- `average_dataset_by` on int64 data as coded (buffer dtype leaf) -/
+def meansIntOp (o : Ops α) (j : Json) : R Json := do
+  let P ← fld j "P" >>= asNat
+  let lab ← fld j "labels" >>= asList asLbl
+  let rows ← fld j "X" >>= asList (asList asInt)
+  let ms : List (Row α) := condMeansInt lab rows
+  pure (obj [("unique", ofList ofLbl (uniqueFirst lab)),
+             ("means", ofList (fun r => ofList o.out ((List.range P).map r)) ms)])
+
 end generic
+
+instance : IntCast Float := ⟨Float.ofInt⟩
 
 def ratOps : Ops Rat := { num := asRat, out := ofRat, sqrt := fun x => x, lg := fun x => x }
 def floatOps : Ops Float :=
@@ -142,6 +273,9 @@ def handle : Handler := fun op j =>
   | "c01.calc" => some (withMode j calcOne calcOne)
   | "c01.list" => some (withMode j calcList calcList)
   | "c01.movie" => some (withMode j calcMovieOp calcMovieOp)
+  | "c01.top" => some (withMode j topOp topOp)
+  | "c01.movietop" => some (withMode j movieTopOp movieTopOp)
+  | "c01.meansint" => some (withMode j meansIntOp meansIntOp)
   | _ => none
 
 end Rsa.Drv.C01
